@@ -799,10 +799,10 @@ pub trait SetLenExt: SetLen {
     where
         Self: IoVectoredBuf,
     {
-        let current_len = (*self).total_len();
-        if len > current_len {
-            unsafe { self.set_len(len) };
-        }
+        // The total length says nothing about which member received the bytes: spare
+        // capacity of an earlier member may have been filled. Distribute unconditionally;
+        // the member-wise `advance_to` never shrinks a member.
+        unsafe { self.set_len(len) };
     }
 
     /// Clear the buffer, setting its length to 0 without touching its content
@@ -948,7 +948,7 @@ unsafe fn default_set_len<'a, B: IoBufMut>(
     while len > 0 {
         let Some(curr) = iter.next() else { return };
         let sub = (*curr).buf_capacity().min(len);
-        unsafe { curr.set_len(sub) };
+        unsafe { curr.advance_to(sub) };
         len -= sub;
     }
 }
